@@ -47,7 +47,8 @@ template <class B> struct BinaryFmt {
         return o;
     }
     static std::vector<std::string> seeds() { std::vector<std::string> r; for (const char* const* p = B::seed_hex(); *p; ++p) r.push_back(sim::from_hex(*p)); return r; }
-    static const FormatApi& api() { static FormatApi a{B::name(), false, run, entry, push, encode, seeds, encode_to_sink}; return a; }
+    static Outcome encoder_nest(int ckind, size_t depth, int limit) { return B::encoder_nest(ckind, depth, limit); }
+    static const FormatApi& api() { static FormatApi a{B::name(), false, run, entry, push, encode, seeds, encode_to_sink, encoder_nest}; return a; }
 };
 
 } // namespace iosim
